@@ -10,6 +10,11 @@ namespace RtcModel.C20Word
 /-- `x.wrapping_add(1)` for `x < W` -/
 def winc (W x : Nat) : Nat := (x + 1) % W
 
+/-- `x.wrapping_add(k)` for `x < W` -/
+def wadd (W x k : Nat) : Nat := (x + k) % W
+
+theorem wadd_one (W x : Nat) : wadd W x 1 = winc W x := rfl
+
 /-- `a.wrapping_sub(b)` for `a, b < W` -/
 def wsub (W a b : Nat) : Nat := (a + W - b) % W
 
